@@ -111,6 +111,16 @@ def run(out, info, tier, seed):
     for fid, fnd in kf.items():
         if fnd.get('status') == 'known' and isinstance(fnd.get('witness'), str) and os.path.exists(os.path.join(common.VERIF, fnd['witness'])):
             pre.append(json.load(open(os.path.join(common.VERIF, fnd['witness'])))['case'])
+    # run in addition to the main stream: hybrid and event-based simulators that announce a self-step far ahead and, when a
+    # trigger steps them in between, announce another one (the earlier announcement stays valid: both steps are performed -
+    # with debug mode on or off)
+    for j in range(10):
+        xr = random.Random(seed * 4001 + j)
+        xc = gen.gen_case(xr, groups=(j % 3 == 0), clean=1.0, maxn=4)
+        for b in xc['beh']:
+            if b.get('type') in ('hybrid', 'event-based') and 'self_steps' in b:
+                b['self_steps'] = {str(tt): tt + xr.choice([1, 2, 3, 4, 5]) for tt in range(xc['until']) if xr.random() < 0.8}
+        pre.append(xc)
     for k in range(-len(pre), n):
         crng = random.Random(seed * 1000003 + k)
         case = pre[k + len(pre)] if k < 0 else gen.gen_mixed_attr_case(crng) if k % 13 == 9 else gen.gen_forecast_case(crng) if k % 11 == 5 else gen.gen_sibling_reader_case(crng) if k % 9 == 7 else gen.gen_chain_case(crng) if k % 8 == 3 else gen.gen_fanin_case(crng) if k % 6 == 1 else gen.gen_parallel_case(crng) if k % 3 == 2 else gen.gen_case(crng, groups=True, clean=0.8, maxn=4)
